@@ -3,10 +3,13 @@ package rules
 import (
 	"fmt"
 	"go/token"
+	"go/types"
 	"math/big"
 	"strings"
 
 	"golang.org/x/tools/go/ssa"
+
+	"goalignsa/core"
 )
 
 // Closed-form estimators. The value returned by each Distance method of the corrected models is
@@ -31,6 +34,7 @@ type symCtx struct {
 	atoms []symAtom
 	recv  *ssa.Parameter
 	leaf  func(ssa.Value) (frac, bool) // rule-specific symbols, tried first
+	binds map[*ssa.Parameter]ssa.Value // parameters of helpers read through -> the caller's argument
 }
 
 type symAtom struct {
@@ -65,6 +69,114 @@ func (sc *symCtx) apply(fn string, args ...frac) frac {
 	name := fmt.Sprintf("%s_%d", fn, len(sc.atoms))
 	sc.atoms = append(sc.atoms, symAtom{fn, args, name})
 	return fracSym(name)
+}
+
+// inlinable: g is a function of the module without loops and with a single return: its results are
+// expressions of its parameters. Returns that return.
+func (sc *symCtx) inlinable(g *ssa.Function) *ssa.Return {
+	if g != nil && strings.HasPrefix(g.Name(), "count") {
+		return nil // the counting helpers are the symbols of the published forms, whatever they delegate to
+	}
+	if g == nil || g.Blocks == nil || len(g.Blocks) > 1 || g.Pkg == nil || !strings.HasPrefix(g.Pkg.Pkg.Path(), core.ModPath) {
+		return nil
+	}
+	ret, _ := g.Blocks[0].Instrs[len(g.Blocks[0].Instrs)-1].(*ssa.Return)
+	if ret == nil {
+		return nil
+	}
+	for _, in := range g.Blocks[0].Instrs {
+		switch x := in.(type) {
+		case *ssa.Store:
+			if _, local := x.Addr.(*ssa.Alloc); !local {
+				return nil
+			}
+		case *ssa.MapUpdate, *ssa.Go, *ssa.Defer, *ssa.Send:
+			return nil
+		}
+	}
+	return ret
+}
+
+func (sc *symCtx) bind(g *ssa.Function, call *ssa.Call) {
+	if sc.binds == nil {
+		sc.binds = map[*ssa.Parameter]ssa.Value{}
+	}
+	for i, p := range g.Params {
+		if i < len(call.Common().Args) {
+			sc.binds[p] = call.Common().Args[i]
+		}
+	}
+}
+
+// wholeRecordValue: the local record a is assigned once, as a whole, and afterwards only read field by field.
+func wholeRecordValue(a *ssa.Alloc) ssa.Value {
+	refs := a.Referrers()
+	if refs == nil {
+		return nil
+	}
+	var val ssa.Value
+	n := 0
+	for _, r := range *refs {
+		switch x := r.(type) {
+		case *ssa.Store:
+			if x.Addr != ssa.Value(a) {
+				return nil
+			}
+			n++
+			val = x.Val
+		case *ssa.FieldAddr:
+			if fr := x.Referrers(); fr != nil {
+				for _, u := range *fr {
+					if ld, ok := u.(*ssa.UnOp); !ok || ld.Op != token.MUL {
+						if _, dbg := u.(*ssa.DebugRef); !dbg {
+							return nil
+						}
+					}
+				}
+			}
+		case *ssa.UnOp, *ssa.DebugRef:
+		default:
+			return nil
+		}
+	}
+	if n != 1 {
+		return nil
+	}
+	return val
+}
+
+// countFieldIndex: the result position of the counting helper a field of a counts record stands for.
+var countFieldIndex = map[string]int{"transitions": 0, "transversions": 1, "ag": 2, "ct": 3, "total": 4}
+
+// structField: field i of the struct value v, when v is (a copy of) the record returned by a
+// function of the module: named like the i-th result of that function.
+func (sc *symCtx) structField(v ssa.Value, field int, depth int) (frac, bool) {
+	if depth > 8 {
+		return frac{}, false
+	}
+	switch x := v.(type) {
+	case *ssa.Parameter:
+		if bv, ok := sc.binds[x]; ok {
+			return sc.structField(bv, field, depth+1)
+		}
+	case *ssa.UnOp:
+		if a, ok := x.X.(*ssa.Alloc); ok && x.Op == token.MUL {
+			if sv := wholeRecordValue(a); sv != nil {
+				return sc.structField(sv, field, depth+1)
+			}
+		}
+	case *ssa.Call:
+		if g := x.Common().StaticCallee(); g != nil {
+			if st, ok := x.Type().Underlying().(*types.Struct); ok && field < st.NumFields() {
+				k := field
+				if idx, known := countFieldIndex[st.Field(field).Name()]; known {
+					k = idx
+				}
+				return fracSym(fmt.Sprintf("%s#%d", g.Name(), k)), true
+			}
+		}
+	}
+	return frac{}, false
 }
 
 // symOf reads v as a rational function; φ-nodes are resolved with pick (which edge to follow).
@@ -109,6 +221,16 @@ func (sc *symCtx) symOf(v ssa.Value, pick func(*ssa.Phi) ssa.Value, depth int) (
 			a, ok := sc.symOf(x.X, pick, depth+1)
 			return a.neg(), ok
 		case token.MUL:
+			// a field of a local record (a spilled value receiver, a local copy of a returned record)
+			if fa, ok := x.X.(*ssa.FieldAddr); ok {
+				if a, ok := fa.X.(*ssa.Alloc); ok {
+					if sv := wholeRecordValue(a); sv != nil {
+						if f, ok := sc.structField(sv, fa.Field, 0); ok {
+							return f, true
+						}
+					}
+				}
+			}
 			if sc.recv == nil {
 				return frac{}, false
 			}
@@ -127,11 +249,28 @@ func (sc *symCtx) symOf(v ssa.Value, pick func(*ssa.Phi) ssa.Value, depth int) (
 	case *ssa.Extract:
 		if call, ok := x.Tuple.(*ssa.Call); ok {
 			if g := call.Common().StaticCallee(); g != nil {
+				// a small helper that only combines its arguments (counts.proportions()): read through it
+				if ret := sc.inlinable(g); ret != nil && x.Index < len(ret.Results) {
+					sc.bind(g, call)
+					return sc.symOf(ret.Results[x.Index], pick, depth+1)
+				}
 				return fracSym(fmt.Sprintf("%s#%d", g.Name(), x.Index)), true
 			}
 		}
+	case *ssa.Parameter:
+		if bv, ok := sc.binds[x]; ok {
+			return sc.symOf(bv, pick, depth+1)
+		}
+	case *ssa.Field:
+		return sc.structField(x.X, x.Field, 0)
 	case *ssa.Call:
 		cc := x.Common()
+		if g := cc.StaticCallee(); g != nil && !isPkgFunc(cc, "math", "Log") && !isPkgFunc(cc, "math", "Pow") {
+			if ret := sc.inlinable(g); ret != nil && len(ret.Results) == 1 {
+				sc.bind(g, x)
+				return sc.symOf(ret.Results[0], pick, depth+1)
+			}
+		}
 		switch {
 		case isPkgFunc(cc, "math", "Log"):
 			a, ok := sc.symOf(cc.Args[0], pick, depth+1)
